@@ -16,7 +16,7 @@ RULE = ('seeded histories of on/once/off(name)/off(name,cb)/emit over 2-3 names 
         'callback was called; distinct = distinct (bodies, ops).')
 TRUSTED = ['callbacks are modelled as scripts of emitter operations; callbacks that raise are not modelled',
            'equality (==) of callbacks is modelled by callback ids: plain functions, and bound methods of host objects '
-           'fetched anew for every on/once/off (equal, not identical)']
+           'fetched anew for every on/once/off (equal, not identical), and functools.wraps-decorated versions of other callbacks']
 ASSUMPTIONS = ['a once-listener reached first by a nested emit receives that emit (it is called exactly once)']
 EXHAUSTIVE = {'quick': False, 'thorough': False}
 
@@ -97,6 +97,13 @@ def run_real(c, make):
                 return self.f(name, arg, c)
         hosts = [Host(f) for f in cbs]
         get = lambda i: hosts[i].hook
+    elif c.get('flavour') == 'wrapped':
+        # every odd callback is a decorated version (functools.wraps: __wrapped__, copied __dict__/__name__) of the
+        # callback before it - a different callback all the same
+        import functools
+        for i in range(1, len(cbs), 2):
+            cbs[i] = functools.wraps(cbs[i - 1])(cbs[i])
+        get = lambda i: cbs[i]
     else:
         get = lambda i: cbs[i]
     for op in c['ops']:
@@ -221,7 +228,7 @@ def gen_case(rng, maxlen):
         bodies.append([gen_op(rng, names, ncb) for _ in range(k)])
     ops = [gen_op(rng, names, ncb) for _ in range(rng.randrange(1, maxlen + 1))]
     return {'kind': 'script', 'on': rng.choice(['emitter', 'emitter', 'parser']), 'fuel': fuel,
-            'flavour': rng.choice(['function', 'function', 'bound']),
+            'flavour': rng.choice(['function', 'function', 'bound', 'wrapped']),
             'names': names, 'bodies': bodies, 'ops': ops}
 
 
@@ -232,6 +239,9 @@ CORE = [
     # unsubscribe a once-listener by its callback
     {'kind': 'script', 'on': 'emitter', 'fuel': 1, 'names': 2, 'bodies': [[], []],
      'ops': [['once', 0, 0, 0], ['on', 0, 1, 1], ['once', 0, 0, 1], ['offcb', 0, 0], ['emit', 0, 1]]},
+    # unsubscribing one callback leaves another one in place (also when the other is a decorated version of it)
+    {'kind': 'script', 'on': 'emitter', 'fuel': 1, 'names': 1, 'bodies': [[], []],
+     'ops': [['on', 0, 1, 0], ['on', 0, 0, 1], ['once', 0, 1, 1], ['offcb', 0, 0], ['emit', 0, 1], ['emit', 0, 2]]},
     # subscribe / unsubscribe during delivery takes effect from the next emit
     {'kind': 'script', 'on': 'emitter', 'fuel': 1, 'names': 1, 'bodies': [[['on', 0, 1, 0], ['offcb', 0, 2]], [], []],
      'ops': [['on', 0, 0, 0], ['on', 0, 2, 1], ['emit', 0, 1], ['emit', 0, 2]]},
@@ -240,7 +250,7 @@ CORE = [
 
 def cases(rng, ctx):
     thorough = ctx['tier'] == 'thorough'
-    out = [dict(c) for c in CORE] + [dict(c, flavour='bound') for c in CORE]
+    out = [dict(c) for c in CORE] + [dict(c, flavour='bound') for c in CORE] + [dict(c, flavour='wrapped') for c in CORE]
     n = (20000 if thorough else 1500) * ctx['scale']
     maxlen = 60 if thorough else 30
     for _ in range(n):
